@@ -80,7 +80,7 @@ static unsigned prog_max_xreg(const vj::Value& prog) {
     auto upd = [&](size_t k) { if (I[k].i() > mx) mx = I[k].i(); };
     if (op == "vset") upd(1);
     else if (op == "vget") upd(2);
-    else if (op == "vmov" || op == "vxor" || op == "vor" || op == "vand" || op == "vinitall") { upd(1); upd(2); }
+    else if (op == "vmov" || op == "vxor" || op == "vor" || op == "vand" || op == "vandn" || op == "vinitall") { upd(1); upd(2); }
     else if (op == "vfold") { upd(2); upd(3); }
   }
   return unsigned(mx);
@@ -130,7 +130,7 @@ static unsigned prog_max_reg(const vj::Value& prog) {
     else if (op == "cmov") { upd(2); upd(3); upd(4); upd(5); }
     else if (op == "jtab" || op == "jtabx") upd(1);
     else if (op == "call2") { upd(1); for (auto& a : I[2].arr) if (a.i() > mx) mx = a.i(); }
-    else if (op == "label" || op == "jmp" || op == "vmov" || op == "vxor" || op == "vor" || op == "vand" || op == "vinitall") {}
+    else if (op == "label" || op == "jmp" || op == "vmov" || op == "vxor" || op == "vor" || op == "vand" || op == "vandn" || op == "vinitall") {}
     else if (op == "vset") upd(2);
     else if (op == "vget" || op == "vfold") upd(1);
     else if (op == "qset") { upd(2); upd(3); }
@@ -172,7 +172,11 @@ static FuncNode* build_x86(x86::Compiler& cc, const Prog& p) {
   for (unsigned i = 1; i <= p.nv; i++) v[i] = cc.new_gp(pick_type(kTypes32, p.salt, i), "v%u", i);
   unsigned nx = prog_max_xreg(prog);
   std::vector<x86::Vec> xv(nx + 1);
-  for (unsigned i = 1; i <= nx; i++) xv[i] = cc.new_vec(pick_type(kTypesV128, p.salt, i), "x%u", i);
+  // more than 16 vector registers: AVX-512 frame (xmm/ymm 16..31 allocatable), VEX instruction forms, every third register 256-bit
+  const bool avx = cc.is_64bit() && nx >= 17;
+  static const TypeId kTypesV256[] = { TypeId::kInt32x8, TypeId::kFloat32x8, TypeId::kFloat64x4, TypeId::kInt8x32, TypeId::kUInt16x16, TypeId::kInt64x4 };
+  for (unsigned i = 1; i <= nx; i++) xv[i] = avx && i % 3 == 0 ? cc.new_vec(pick_type(kTypesV256, p.salt, i), "y%u", i) : cc.new_vec(pick_type(kTypesV128, p.salt, i), "x%u", i);
+  auto XV = [&](const vj::Value& I, size_t k) -> x86::Vec& { return xv[size_t(I[k].i())]; };
   unsigned nq = prog_max_qreg(prog);
   std::vector<x86::Gp> qv(nq + 1);
   for (unsigned i = 1; i <= nq; i++) qv[i] = cc.new_gp(pick_type(kTypes64, p.salt, i), "q%u", i);
@@ -187,6 +191,7 @@ static FuncNode* build_x86(x86::Compiler& cc, const Prog& p) {
   fn->set_arg(0, v[1]);
   fn->set_arg(1, v[2]);
   fn->set_arg(2, outp);
+  if (avx) { fn->frame().set_avx_enabled(); fn->frame().set_avx512_enabled(); }
   auto mask = [&](const x86::Gp& r) { cc.and_(r, 0xFFFF); };
   auto outcell = [&](long long k) { return x86::dword_ptr(outp, int32_t(4 * k)); };
   // jtabx: table bases are loaded into long-lived registers at function entry
@@ -323,19 +328,34 @@ static FuncNode* build_x86(x86::Compiler& cc, const Prog& p) {
     else if (op == "fold") {
       for (long long r = I[2].i(); r <= I[3].i(); r++) { cc.imul(R(1), R(1), 31); cc.add(R(1), v[size_t(r)]); mask(R(1)); }
     }
+    else if (avx && (op == "vset" || op == "vget" || op == "vmov" || op == "vxor" || op == "vor" || op == "vand" || op == "vandn")) {
+      // VEX forms; both operands in the width both registers have (ymm only if both are 256-bit registers)
+      if (op == "vset") cc.vmovd(XV(I, 1).xmm(), R(2));
+      else if (op == "vget") cc.vmovd(R(1), XV(I, 2).xmm());
+      else {
+        bool y = XV(I, 1).is_vec256() && XV(I, 2).is_vec256();
+        x86::Vec d = y ? XV(I, 1).ymm() : XV(I, 1).xmm(), s2 = y ? XV(I, 2).ymm() : XV(I, 2).xmm();
+        if (op == "vmov") { if (I[1].i() % 2) cc.vmovdqa(d, s2); else cc.vmovdqu(d, s2); }
+        else if (op == "vxor") cc.vpxor(d, d, s2);
+        else if (op == "vor") cc.vpor(d, d, s2);
+        else if (op == "vand") cc.vpand(d, d, s2);
+        else cc.vpandn(d, d, s2);                     // d = ~d & s2
+      }
+    }
     else if (op == "vset") cc.movd(xv[size_t(I[1].i())], R(2));
     else if (op == "vget") cc.movd(R(1), xv[size_t(I[2].i())]);
     else if (op == "vmov") cc.movdqa(xv[size_t(I[1].i())], xv[size_t(I[2].i())]);
     else if (op == "vxor") cc.pxor(xv[size_t(I[1].i())], xv[size_t(I[2].i())]);
     else if (op == "vor") cc.por(xv[size_t(I[1].i())], xv[size_t(I[2].i())]);
     else if (op == "vand") cc.pand(xv[size_t(I[1].i())], xv[size_t(I[2].i())]);
+    else if (op == "vandn") cc.pandn(xv[size_t(I[1].i())], xv[size_t(I[2].i())]);
     else if (op == "vinitall") {
       x86::Gp t = cc.new_gp32("vi");
-      for (long long r = I[1].i(); r <= I[2].i(); r++) { cc.mov(t, init_const(uint32_t(1000 + r))); cc.movd(xv[size_t(r)], t); }
+      for (long long r = I[1].i(); r <= I[2].i(); r++) { cc.mov(t, init_const(uint32_t(1000 + r))); if (avx) cc.vmovd(xv[size_t(r)].xmm(), t); else cc.movd(xv[size_t(r)], t); }
     }
     else if (op == "vfold") {
       x86::Gp t = cc.new_gp32("vf");
-      for (long long r = I[2].i(); r <= I[3].i(); r++) { cc.movd(t, xv[size_t(r)]); cc.imul(R(1), R(1), 31); cc.add(R(1), t); mask(R(1)); }
+      for (long long r = I[2].i(); r <= I[3].i(); r++) { if (avx) cc.vmovd(t, xv[size_t(r)].xmm()); else cc.movd(t, xv[size_t(r)]); cc.imul(R(1), R(1), 31); cc.add(R(1), t); mask(R(1)); }
     }
     else if (op == "qinitall") {
       for (long long r = I[1].i(); r <= I[2].i(); r++) cc.mov(qv[size_t(r)], uint64_t((uint64_t(init_const(uint32_t(2000 + r))) << 32) | init_const(uint32_t(3000 + r))));
@@ -1213,6 +1233,7 @@ static FuncNode* build_a64(a64::Compiler& cc, const Prog& p) {
     else if (op == "vxor") cc.eor(xv[size_t(I[1].i())].b16(), xv[size_t(I[1].i())].b16(), xv[size_t(I[2].i())].b16());
     else if (op == "vor") cc.orr(xv[size_t(I[1].i())].b16(), xv[size_t(I[1].i())].b16(), xv[size_t(I[2].i())].b16());
     else if (op == "vand") cc.and_(xv[size_t(I[1].i())].b16(), xv[size_t(I[1].i())].b16(), xv[size_t(I[2].i())].b16());
+    else if (op == "vandn") cc.bic(xv[size_t(I[1].i())].b16(), xv[size_t(I[2].i())].b16(), xv[size_t(I[1].i())].b16());     // x = y & ~x
     else if (op == "vinitall") {
       a64::Gp t = cc.new_gp32("vi");
       for (long long r = I[1].i(); r <= I[2].i(); r++) { cc.mov(t, init_const(uint32_t(1000 + r))); cc.fmov(xv[size_t(r)].s(), t); }
